@@ -101,7 +101,10 @@ def run_tlc(module, cfg=None, files=None, workers=1, timeout=600, extra=None, he
         cfg = cfg + "_gen"
         with open(os.path.join(d, cfg + ".cfg"), "w") as f:
             f.write(cfg_text)
-    cmd = ["java", "-Xss512m", "-Xmx" + heap, "-XX:+UseParallelGC"]
+    # java.io.tmpdir inside the scratch copy: TLC and SANY leave temporary directories behind (tlc-*, SANY*), which would
+    # otherwise pile up under /tmp
+    os.makedirs(os.path.join(d, "jtmp"), exist_ok=True)
+    cmd = ["java", "-Xss512m", "-Xmx" + heap, "-XX:+UseParallelGC", "-Djava.io.tmpdir=" + os.path.join(d, "jtmp")]
     if deque:
         cmd.append("-Dtlc2.tool.queue.IStateQueue=StateDeque")
     cmd += ["-cp", JAR, "tlc2.TLC", "-workers", str(workers), "-metadir", os.path.join(d, "meta"),
